@@ -108,6 +108,53 @@ def _twin_job(job):
     return {"trace": tr, "summary": dict(summ, job=job, raised=None), "counts": counts, "history_unreadable": broken}
 
 
+def _failed_iteration_job(job):
+    """The user's likelihood raises ONCE part-way through an iteration; the caller catches the error and calls run() again (resuming the
+    object it has).  The iteration that failed appends nothing: afterwards every recorded quantity holds exactly the batches of the
+    iterations that completed, and the retried run appends one batch per iteration as usual."""
+    core.import_repo()
+    import warnings
+
+    warnings.filterwarnings("ignore")
+    import numpy as np
+    from tempest import Sampler
+    from vlib import drivers
+
+    tgt = drivers.Target(2)
+    state = {"n": 0, "armed": True}
+
+    def ll(x):
+        state["n"] += 1
+        if state["armed"] and state["n"] == job["fail_at"]:
+            state["armed"] = False
+            raise FloatingPointError("user likelihood failed (injected by the harness)")
+        return tgt._logl_point(x)
+
+    np.random.seed(job["seed"])
+    s = Sampler(prior_transform=tgt.prior_transform, log_likelihood=ll, n_dim=2, n_particles=8, clustering=False, sample=job["kernel"])
+    s.state.update_current({"iter": 0, "calls": 0, "beta": 0.0, "logz": 0.0})   # what run() sets before its first iteration
+    lens = []
+    failed_at = None
+    for k in range(40):
+        H = s.state._history
+        before = {kk: len(v) for kk, v in H.items()}
+        try:
+            s.sample()
+        except FloatingPointError:
+            failed_at = k
+            after = {kk: len(v) for kk, v in s.state._history.items()}
+            if after != before:
+                return {"job": job, "bad": f"the iteration in which the user's likelihood raised changed the history lengths: {[(kk, before[kk], after[kk]) for kk in before if before[kk] != after[kk]]}"}
+            continue
+        after = {kk: len(v) for kk, v in s.state._history.items()}
+        grown = {kk: after[kk] - before[kk] for kk in after}
+        if any(g not in (0, 1) for g in grown.values()) or grown.get("beta") != 1 or grown.get("u") != 1 or grown.get("logl") != 1:
+            return {"job": job, "bad": f"iteration {k} (after a failed iteration at {failed_at}) appended {grown}"}
+        if s.state.get_current("beta") == 1.0 and failed_at is not None and k > failed_at + 2:
+            break
+    return {"job": job, "bad": None, "failed_at": failed_at}
+
+
 def system_part(ck):
     import concurrent.futures as cf
     import multiprocessing as mp
@@ -127,6 +174,14 @@ def system_part(ck):
             ck.violation("scribble:history-unreadable" if j["scribble"] else "history-unreadable",
                          f"the committed history of run {j['label']!r} cannot be read back ({r['history_unreadable']})" + (": what the caller wrote into returned objects is inside it" if j["scribble"] else ""),
                          {"job": j})
+    fj = [dict(fail_at=fa, kernel=kern, seed=1780 + i + ck.seed) for i, (fa, kern) in enumerate([(3, "tpcn"), (37, "tpcn"), (90, "rwm"), (150, "tpcn")])]
+    with cf.ProcessPoolExecutor(max_workers=4, mp_context=mp.get_context("fork")) as ex:
+        fres = list(ex.map(_failed_iteration_job, fj))
+    for r_ in fres:
+        if r_["bad"]:
+            ck.violation("failed-iteration:history", r_["bad"], {"job": r_["job"]})
+    if not any(r_.get("failed_at") is not None for r_ in fres) and not ck.violations:
+        raise RuntimeError("failed-iteration scenario vacuous: the injected failure never fired")
     traces = [r["trace"] for r in res]
     # run() called a second time on the same sampler: the batches committed by the first call are still there (append-only across calls)
     traces += sysrun.run_jobs([{"conf": dict(clustering=False, n_particles=8), "seed": 1790 + ck.seed, "label": "run-again (C17)", "n_total": 24, "rerun": 40},
